@@ -58,43 +58,63 @@ func positionStartGPOS(buffer *Buffer) {
 func propagateAttachmentOffsets(pos []GlyphPosition, i int, direction Direction) {
 	/* Adjusts offsets of attached glyphs (both cursive and mark) to accumulate
 	 * offset of glyph they are attached to. */
-	chain, type_ := pos[i].attachChain, pos[i].attachType
-	if chain == 0 {
+	if pos[i].attachChain == 0 {
 		return
 	}
 
-	pos[i].attachChain = 0
-
-	j := i + int(chain)
-
-	if j < 0 || j >= len(pos) {
-		return
-	}
-
-	propagateAttachmentOffsets(pos, j, direction)
-
-	//   assert (!!(type_ & attachTypeMark) ^ !!(type_ & attachTypeCursive));
-
-	if (type_ & attachTypeCursive) != 0 {
-		if direction.isHorizontal() {
-			pos[i].YOffset += pos[j].YOffset
-		} else {
-			pos[i].XOffset += pos[j].XOffset
+	// Follow the chain of attachments starting at i, then accumulate the offsets from its end:
+	// the chain may be as long as the buffer, so it is kept on an explicit stack and not on the
+	// call stack (one activation per glyph overflowed it).
+	type link struct{ from, to int }
+	var (
+		stackBuffer [16]link
+		stack       = stackBuffer[:0]
+	)
+	for {
+		chain := pos[i].attachChain
+		if chain == 0 {
+			break
 		}
-	} else /*if (type_ & attachTypeMark)*/ {
-		pos[i].XOffset += pos[j].XOffset
-		pos[i].YOffset += pos[j].YOffset
+		pos[i].attachChain = 0
 
-		// assert (j < i);
-		if direction.isForward() {
-			for _, p := range pos[j:i] {
-				pos[i].XOffset -= p.XAdvance
-				pos[i].YOffset -= p.YAdvance
+		j := i + int(chain)
+		if j < 0 || j >= len(pos) {
+			break
+		}
+		stack = append(stack, link{i, j})
+		i = j
+	}
+
+	for k := len(stack) - 1; k >= 0; k-- {
+		i, j := stack[k].from, stack[k].to
+		type_ := pos[i].attachType
+
+		//   assert (!!(type_ & attachTypeMark) ^ !!(type_ & attachTypeCursive));
+
+		if (type_ & attachTypeCursive) != 0 {
+			if direction.isHorizontal() {
+				pos[i].YOffset += pos[j].YOffset
+			} else {
+				pos[i].XOffset += pos[j].XOffset
 			}
-		} else {
-			for _, p := range pos[j+1 : i+1] {
-				pos[i].XOffset += p.XAdvance
-				pos[i].YOffset += p.YAdvance
+		} else /*if (type_ & attachTypeMark)*/ {
+			pos[i].XOffset += pos[j].XOffset
+			pos[i].YOffset += pos[j].YOffset
+
+			// assert (j < i);
+			if j >= i {
+				continue
+			}
+			if direction.isForward() {
+				for _, p := range pos[j:i] {
+					pos[i].XOffset -= p.XAdvance
+					pos[i].YOffset -= p.YAdvance
+				}
+			} else {
+				for _, p := range pos[j+1 : i+1] {
+					pos[i].XOffset += p.XAdvance
+					pos[i].YOffset += p.YAdvance
+				}
 			}
 		}
 	}
@@ -259,29 +279,46 @@ func (c *otApplyContext) applyGPOSValueRecord(format tables.ValueFormat, v table
 }
 
 func reverseCursiveMinorOffset(pos []GlyphPosition, i int, direction Direction, newParent int) {
-	chain, type_ := pos[i].attachChain, pos[i].attachType
-	if chain == 0 || type_&attachTypeCursive == 0 {
-		return
+	// the chain of cursive attachments is walked with an explicit stack, then reversed from its end
+	// (see propagateAttachmentOffsets)
+	type link struct {
+		from, to int
+		chain    int32
+		type_    uint8
+	}
+	var (
+		stackBuffer [16]link
+		stack       = stackBuffer[:0]
+	)
+	for {
+		chain, type_ := pos[i].attachChain, pos[i].attachType
+		if chain == 0 || type_&attachTypeCursive == 0 {
+			break
+		}
+
+		pos[i].attachChain = 0
+
+		j := i + int(chain)
+
+		// stop if we see new parent in the chain
+		if j == newParent || j < 0 || j >= len(pos) {
+			break
+		}
+		stack = append(stack, link{i, j, chain, type_})
+		i = j
 	}
 
-	pos[i].attachChain = 0
+	for k := len(stack) - 1; k >= 0; k-- {
+		i, j := stack[k].from, stack[k].to
+		if direction.isHorizontal() {
+			pos[j].YOffset = -pos[i].YOffset
+		} else {
+			pos[j].XOffset = -pos[i].XOffset
+		}
 
-	j := i + int(chain)
-
-	// stop if we see new parent in the chain
-	if j == newParent {
-		return
+		pos[j].attachChain = -stack[k].chain
+		pos[j].attachType = stack[k].type_
 	}
-	reverseCursiveMinorOffset(pos, j, direction, newParent)
-
-	if direction.isHorizontal() {
-		pos[j].YOffset = -pos[i].YOffset
-	} else {
-		pos[j].XOffset = -pos[i].XOffset
-	}
-
-	pos[j].attachChain = -chain
-	pos[j].attachType = type_
 }
 
 func (c *otApplyContext) applyGPOSPair1(inner tables.PairPosData1, index int) bool {
